@@ -46,4 +46,15 @@ def main : IO Unit := do
                   let w := Gen.icmpCode (Gen.cwiClass cu cl x z a1 b1 a2 b2)
                   if g ≠ w then
                     IO.println s!"MISMATCH lp_interval_cmp_with_intersect: cmp_ub={cu} cmp_lb={cl} cmp(I1.ub,I2.lb)={x} cmp(I1.lb,I2.ub)={z} I1=({a1},{b1}) I2=({a2},{b2}) gives {g} in the C source, model {w}"; n := n + 1
+  for c in [(-1 : Int), 0, 1] do
+    for o1 in [false, true] do
+      for o2 in [false, true] do
+        let wl : Int := if c ≠ 0 then c else if o1 = o2 then 0 else if o1 then 1 else -1
+        let wu : Int := if c ≠ 0 then c else if o1 = o2 then 0 else if o1 then -1 else 1
+        let gl := Gen.cmpLowerBounds c (if o1 then 1 else 0) (if o2 then 1 else 0)
+        let gu := Gen.cmpUpperBounds c (if o1 then 1 else 0) (if o2 then 1 else 0)
+        if gl ≠ wl then
+          IO.println s!"MISMATCH lp_interval_cmp_lower_bounds: cmp={c} a_open=({o1},{o2}) gives {gl} in the C source, model {wl}"; n := n + 1
+        if gu ≠ wu then
+          IO.println s!"MISMATCH lp_interval_cmp_upper_bounds: cmp={c} b_open=({o1},{o2}) gives {gu} in the C source, model {wu}"; n := n + 1
   IO.println s!"#mismatches {n}"
